@@ -176,4 +176,21 @@ def run (ops : List QOp) : SState := ops.foldl step {}
 
 end Spec
 
+/-! ## Several live queues
+
+A process holds many `TaskQueue` values (main, one per hook queue). `task_queue.go` keeps nothing at
+package level that a queue stores tasks in: every `TaskQueue` owns its `items`. A history over a set
+of queues is a list of `(queue, operation)`; the operation is applied to the addressed queue. -/
+
+abbrev QSet := Nat → State
+
+def stepAt (qs : QSet) (p : Nat × QOp) : QSet :=
+  fun j => if j = p.1 then step (qs j) p.2 else qs j
+
+def runSet (ops : List (Nat × QOp)) : QSet := ops.foldl stepAt (fun _ => {})
+
+/-- The operations of a set history that were addressed to queue `j`, in order. -/
+def opsOf (ops : List (Nat × QOp)) (j : Nat) : List QOp :=
+  (ops.filter (fun p => p.1 == j)).map (·.2)
+
 end ShellOp.Queue
